@@ -61,15 +61,19 @@ impl Model for Collector {
 /// `set` is "quick" (one write, FIFO network) or "thorough" (writes on both sides, any
 /// in-flight segment may be delivered next, so out-of-order queues are populated).
 pub fn victim_cfg(set: &str) -> Cfg {
-    let mut c = Cfg::basic(100, 100, 300);
-    c.writes = if set == "quick" {
+    // "-rev": the initial sequence numbers the other way round, so that each side is once the
+    // endpoint whose own numbers are (circularly) above its peer's
+    let rev = set.ends_with("-rev");
+    let base = set.trim_end_matches("-rev");
+    let mut c = if rev { Cfg::basic(100, 300, 100) } else { Cfg::basic(100, 100, 300) };
+    c.writes = if base == "quick" {
         [vec![2], vec![]]
     } else {
         [vec![2], vec![1]]
     };
     c.closes = [true, true];
     c.ticks = [0, 0];
-    c.reorder = set != "quick";
+    c.reorder = base != "quick";
     c
 }
 
@@ -293,11 +297,42 @@ fn inert_class(sn: &VerifSnapshot, seg: &Segment) -> &'static str {
     }
 }
 
+/// The window the peer last advertised after `seg`, decided without the endpoint's own
+/// SND.WL1/SND.WL2 bookkeeping (which a defect may have corrupted): an acceptable segment that
+/// starts exactly at RCV.NXT and acknowledges something in [SND.UNA, SND.NXT] is at least as
+/// new as anything processed before, so RFC 9293 3.10.7.4 must take its window; a segment that
+/// cannot update (no ACK, unacceptable, bad ACK) leaves the previous one. Anything else is
+/// undetermined (None): an old but still acceptable segment, or one that starts beyond RCV.NXT,
+/// which is held for in-order processing and whose window takes effect only then.
+fn independent_window_after(sn: &VerifSnapshot, seg: &Segment) -> Option<u16> {
+    if sn.state != State::Established {
+        return None;
+    }
+    let h = &seg.header;
+    if h.ctl.rst() || h.ctl.syn() {
+        return None;
+    }
+    if !h.ctl.ack() || !acceptable(sn, seg) {
+        return Some(sn.snd_wnd);
+    }
+    let ack_ok = mod_leq(sn.snd_una, h.ack) && mod_leq(h.ack, sn.snd_nxt);
+    if !ack_ok {
+        return Some(sn.snd_wnd);
+    }
+    if h.seq == sn.rcv_nxt {
+        Some(h.wnd)
+    } else {
+        None
+    }
+}
+
 struct InjectOutcome {
     key: Option<u128>,
     after: Option<Sys>,
     violations: Vec<Violation>,
     inert: bool,
+    /// see [`independent_window_after`]
+    wnd_ref: Option<u16>,
 }
 
 fn flags_class(flags: u8) -> String {
@@ -327,6 +362,7 @@ fn inject(cfg: &Cfg, victim: &Sys, side: usize, ix: &[usize]) -> InjectOutcome {
     let sn = victim.side[side].snap().unwrap();
     let seg = attack_segment(&sn, side, ix);
     let inert = must_be_inert(&sn, &seg);
+    let wnd_ref = independent_window_after(&sn, &seg);
     let mut n = victim.clone();
     let read_before = n.side[side].read.len();
     let nxt_before = sn.snd_nxt;
@@ -346,6 +382,7 @@ fn inject(cfg: &Cfg, victim: &Sys, side: usize, ix: &[usize]) -> InjectOutcome {
                 after: None,
                 violations: vec![v],
                 inert,
+                wnd_ref,
             }
         }
     };
@@ -416,6 +453,7 @@ fn inject(cfg: &Cfg, victim: &Sys, side: usize, ix: &[usize]) -> InjectOutcome {
         }
     }
     InjectOutcome {
+        wnd_ref,
         key: Some(key128(&n.canon())),
         after: Some(n),
         violations,
@@ -426,7 +464,7 @@ fn inject(cfg: &Cfg, victim: &Sys, side: usize, ix: &[usize]) -> InjectOutcome {
 /// Continues a post-injection state with the legitimate peer: the victim application writes
 /// once more (window check), then everything is delivered fairly. No call may unwind; if the
 /// injected segment had to be inert the streams must stay prefixes of the legitimate writes.
-fn continue_after(cfg: &Cfg, st: &Sys, side: usize, inert: bool, wnd_ref_valid: bool) -> Vec<Violation> {
+fn continue_after(cfg: &Cfg, st: &Sys, side: usize, inert: bool, wnd_ref: Option<u16>) -> Vec<Violation> {
     let mut c = st.clone();
     let r = guarded(|| -> Vec<Violation> {
         let mut vs = vec![];
@@ -444,16 +482,18 @@ fn continue_after(cfg: &Cfg, st: &Sys, side: usize, inert: bool, wnd_ref_valid: 
                 let out = c.flush(side);
                 // judged in ESTABLISHED only: before that the recorded window comes from a bare
                 // SYN, which carries no acknowledgment number to anchor a right edge
-                if wnd_ref_valid && sn.state == State::Established {
+                if sn.state == State::Established {
                     if let Some(sa) = c.side[side].snap() {
                         for s in &out {
                             let l = s.text.len() as u32;
                             if l == 0 || !mod_geq(s.header.seq, nxt_before) {
                                 continue;
                             }
-                            // the window the victim itself recorded is what the peer last
-                            // advertised (checked against the reference at injection time)
-                            let right = sa.snd_una.wrapping_add(sn.snd_wnd as u32);
+                            // the window the peer last advertised: the independent reference
+                            // where the injected segment determines it, else what the victim
+                            // recorded (judged against the reference at injection time)
+                            let wnd = wnd_ref.unwrap_or(sn.snd_wnd);
+                            let right = sa.snd_una.wrapping_add(wnd as u32);
                             let end = s.header.seq.wrapping_add(l);
                             if !(end == right || mod_lt(end, right)) {
                                 vs.push(Violation::new(
@@ -464,7 +504,7 @@ fn continue_after(cfg: &Cfg, st: &Sys, side: usize, inert: bool, wnd_ref_valid: 
                                         "after injection the victim wrote 3 bytes and sent {} beyond una {} + wnd {}",
                                         render_seg(s),
                                         sa.snd_una,
-                                        sn.snd_wnd
+                                        wnd
                                     ),
                                 ));
                             }
@@ -523,7 +563,7 @@ fn single(report: &mut Report, set: &str, alpha: &Alphabet) {
     let mut dims = vec![targets.len()];
     dims.extend(alpha.dims());
     let p = Product::new(&dims);
-    let seen: dashmap::DashSet<(u128, bool)> = dashmap::DashSet::new();
+    let seen: dashmap::DashSet<(u128, bool, Option<u16>)> = dashmap::DashSet::new();
     let continued = std::sync::atomic::AtomicU64::new(0);
     let (vict2, targets2, p2, alpha2) = (vict.clone(), targets.clone(), p.clone(), alpha.clone());
     enumerate::run_into(
@@ -536,10 +576,10 @@ fn single(report: &mut Report, set: &str, alpha: &Alphabet) {
             let (vi, side) = targets[ix[0]];
             let mut o = inject(&cfg, &vict[vi], side, &alpha.resolve(&ix[1..]));
             if let (Some(k), Some(st)) = (o.key, o.after.as_ref()) {
-                if seen.insert((k, o.inert)) {
+                if seen.insert((k, o.inert, o.wnd_ref)) {
                     continued.fetch_add(1, std::sync::atomic::Ordering::Relaxed);
                     o.violations
-                        .extend(continue_after(&cfg, st, side, o.inert, true));
+                        .extend(continue_after(&cfg, st, side, o.inert, o.wnd_ref));
                 }
             }
             CaseOutcome {
@@ -570,7 +610,7 @@ fn double(report: &mut Report, set: &str, a1: &Alphabet, a2: &Alphabet) {
     dims.extend(a1.dims());
     dims.extend(a2.dims());
     let p = Product::new(&dims);
-    let seen: dashmap::DashSet<(u128, bool)> = dashmap::DashSet::new();
+    let seen: dashmap::DashSet<(u128, bool, Option<u16>)> = dashmap::DashSet::new();
     let (vict2, targets2, p2, a1b, a2b) = (vict.clone(), targets.clone(), p.clone(), a1.clone(), a2.clone());
     enumerate::run_into(
         report,
@@ -590,8 +630,8 @@ fn double(report: &mut Report, set: &str, a1: &Alphabet, a2: &Alphabet) {
                     key = o2.key;
                     if let (Some(k), Some(st)) = (o2.key, o2.after.as_ref()) {
                         let inert = o1.inert && o2.inert;
-                        if seen.insert((k, inert)) {
-                            violations.extend(continue_after(&cfg, st, side, inert, true));
+                        if seen.insert((k, inert, o2.wnd_ref)) {
+                            violations.extend(continue_after(&cfg, st, side, inert, o2.wnd_ref));
                         }
                     }
                 }
@@ -614,7 +654,9 @@ pub fn run(report: &mut Report, tier: &str) {
     report.assume("acceptability is RFC 9293 table 6 evaluated on the endpoint's state just before the arrival; in SYN-SENT a segment with neither SYN nor RST must be inert");
     report.assume("the attacker only sends syntactically valid segments from the peer's address and port (checksums are compiled out in this build)");
     single(report, "quick", &Alphabet::full());
+    single(report, "quick-rev", &Alphabet::reduced());
     if tier == "thorough" {
+        single(report, "thorough-rev", &Alphabet::reduced());
         single(report, "thorough", &Alphabet::reduced());
         double(report, "quick", &Alphabet::reduced(), &Alphabet::second());
         long_scenario(report);
@@ -697,7 +739,7 @@ pub fn replay(w: &Value, _tier: &str) -> String {
     }
     let part = w["part"].as_str().unwrap_or("");
     let mut r = Report::new("C17-replay", "quick", "model_checking");
-    for set in ["quick", "thorough"] {
+    for set in ["quick", "thorough", "quick-rev", "thorough-rev"] {
         for alpha in [Alphabet::full(), Alphabet::reduced()] {
             if part == single_part_name(set, &alpha) {
                 let cfg = victim_cfg(set);
@@ -735,6 +777,7 @@ fn render_injections(cfg: &Cfg, victim: &Sys, side: usize, segs: &[[usize; 5]]) 
     let mut out = format!("victim state: {}\n", victim.describe());
     let mut cur = victim.clone();
     let mut inert_all = true;
+    let mut last_ref = None;
     let mut viols = vec![];
     for r in segs {
         let Some(sn) = cur.side[side].snap() else { break };
@@ -748,6 +791,7 @@ fn render_injections(cfg: &Cfg, victim: &Sys, side: usize, segs: &[[usize; 5]]) 
         ));
         let o = inject(cfg, &cur, side, r);
         inert_all &= o.inert;
+        last_ref = o.wnd_ref;
         viols.extend(o.violations);
         match o.after {
             Some(a) => {
@@ -757,7 +801,7 @@ fn render_injections(cfg: &Cfg, victim: &Sys, side: usize, segs: &[[usize; 5]]) 
             None => break,
         }
     }
-    viols.extend(continue_after(cfg, &cur, side, inert_all, true));
+    viols.extend(continue_after(cfg, &cur, side, inert_all, last_ref));
     for v in viols {
         out.push_str(&format!("VIOLATION {} :: {}\n", v.signature(), v.detail));
     }
